@@ -16,6 +16,7 @@ from ..core import (
     walk_local,
     calls_in,
     block_raises,
+    strip_docstring,
 )
 from ..cfg import cfg_of, RETURN, FALLOFF, RAISE
 from .. import grammar as G
@@ -964,52 +965,34 @@ def r1_9(ctx, rep):
         obl(rep, scan, defs[0] if defs else scan.node, "R1.9", okdef,
             f"`{xname}` lists the positions of all `~` tokens of the complete token list", why,
             f"`{xname}` is not recognisably the list of all `~` positions ({why})")
-    # implicit intercept tokens
-    toks = []
-    for n in walk_local(scan.node):
-        if isinstance(n, ast.Call) and dotted(n.func) == "Token":
-            toks.append(n)
-    descr = [tuple(unparse(a) for a in t.args) for t in toks]
-    number_ones = [t for t in toks if is_str_const(t.args[0], "NUMBER") and len(t.args) == 3 and unparse(t.args[2]) == "1" and is_str_const(t.args[1], "1")]
-    pluses = [t for t in toks if is_str_const(t.args[0], PLUS) and is_str_const(t.args[1], "+")]
-    others = [t for t in toks if t not in number_ones and t not in pluses and not is_str_const(t.args[0], "EOF")]
-    obl(rep, scan, scan.node, "R1.9", len(number_ones) == 2 and len(pluses) == 2 and not others,
-        "the only tokens synthesised by scan are EOF and the implicit `1 +` (twice: with and without `~`)",
-        str(descr), f"scan synthesises unexpected tokens: {descr}")
-    # head insertion
-    head = [s for s in walk_local(scan.node) if isinstance(s, ast.Assign) and is_self_attr(s.targets[0], "tokens")
-            and isinstance(s.value, ast.BinOp) and isinstance(s.value.op, ast.Add)]
-    ok = False
-    if len(head) == 1:
-        l, r = head[0].value.left, head[0].value.right
-        ok = isinstance(l, ast.List) and len(l.elts) == 2 and l.elts[0] in number_ones and l.elts[1] in pluses and unparse(r) == "self.tokens"
-    obl(rep, scan, head[0] if head else scan.node, "R1.9", ok,
-        "without `~` the implicit tokens NUMBER(1), PLUS are prepended in that order",
-        "", "head insertion of the implicit intercept is not `[NUMBER 1, PLUS] + tokens`")
-    ins = [x for x in calls_in(scan.node) if dotted(x.func) == "self.tokens.insert"]
-    ok = len(ins) == 2
-    if ok and guard:
-        xname = guard[1]
-        a, b = ins
-        ok = unparse(a.args[0]) == f"{xname}[0] + 1" and a.args[1] in number_ones \
-            and unparse(b.args[0]) == f"{xname}[0] + 2" and b.args[1] in pluses \
-            and a.lineno < b.lineno
-    obl(rep, scan, ins[0] if ins else scan.node, "R1.9", ok,
-        "with one `~` the implicit NUMBER(1), PLUS are inserted at positions t+1, t+2",
-        "", "insertion after `~` is not NUMBER(1) at t+1 followed by PLUS at t+2")
-    # the two insertion branches are selected by the tilde count 0 / 1 under add_intercept
-    conds = []
-    for i in walk_local(scan.node):
-        if isinstance(i, ast.If) and isinstance(i.test, ast.Compare) and isinstance(i.test.ops[0], ast.Eq) \
-                and dotted(getattr(i.test.left, "func", None)) == "len" and isinstance(i.test.comparators[0], ast.Constant):
-            conds.append((i.test.comparators[0].value, i))
-    ok = sorted(v for v, _ in conds) == [0, 1]
-    if ok and head and ins:
-        c0 = [i for v, i in conds if v == 0][0]
-        c1 = [i for v, i in conds if v == 1][0]
-        ok = any(s is head[0] for s in ast.walk(c0)) and all(any(x is y for y in ast.walk(c1)) for x in ins)
-    obl(rep, scan, conds[0][1] if conds else scan.node, "R1.9", ok,
-        "prepend happens iff there is no `~`; insertion after `~` iff there is exactly one")
+    # the implicit intercept, decided on a symbolic model of the token list: the statements after the EOF append are
+    # evaluated for every tilde count k in {0, 1, 2} and add_intercept in {True, False}; T is the scanned list, t the
+    # position of the single `~`
+    xname = guard[1] if guard else None
+    try:
+        outcomes = {(k, flag): _intercept_model(scan, xname, k, flag) for k in (0, 1, 2) for flag in (True, False)}
+    except AnalysisError as e:
+        rep.defer(f"R1.9: {e}")
+        outcomes = None
+    if outcomes is not None:
+        ONE, PL = "Token('NUMBER', '1', 1)", f"Token('{PLUS}', '+')"
+        want = {
+            (0, True): ("list", [("tok", ONE), ("tok", PL), ("T", "0", "N")]),
+            (1, True): ("list", [("T", "0", "t + 1"), ("tok", ONE), ("tok", PL), ("T", "t + 1", "N")]),
+            (0, False): ("list", [("T", "0", "N")]),
+            (1, False): ("list", [("T", "0", "N")]),
+        }
+        for key in sorted(want):
+            got = outcomes[key]
+            k, flag = key
+            obl(rep, scan, scan.node, "R1.9", got == want[key],
+                f"{k} `~`, add_intercept={flag}: scan returns " + _show_tokens(want[key]),
+                "symbolic token list", f"with {k} `~` and add_intercept={flag} scan returns {_show_tokens(got)}, expected {_show_tokens(want[key])}: "
+                "the implicit `1 +` is not placed at the start of the right-hand side (or tokens are lost / duplicated)")
+        for flag in (True, False):
+            got = outcomes[(2, flag)]
+            obl(rep, scan, scan.node, "R1.9", got[0] == "raise", f"two `~`, add_intercept={flag}: scan raises", "",
+                f"with two `~` scan returns {_show_tokens(got)}")
     # model_description uses the default add_intercept=True
     sc = ctx.md_scan_call
     if sc is not None:
@@ -1019,6 +1002,221 @@ def r1_9(ctx, rep):
         d = scan.node.args.defaults
         okc = okc and len(d) == 1 and isinstance(d[0], ast.Constant) and d[0].value is True
         obl(rep, md, sc, "R1.9", okc, "model_description scans with add_intercept=True (default)")
+
+
+def _show_tokens(v):
+    if v[0] != "list":
+        return v[0] + (f" ({v[1]})" if len(v) > 1 else "")
+    out = []
+    for p_ in v[1]:
+        out.append(p_[1] if p_[0] == "tok" else f"T[{p_[1]}:{p_[2]}]")
+    return "[" + ", ".join(out) + "]"
+
+
+def _intercept_model(scan, xname, k, add_intercept):
+    """Evaluate the statements of Scanner.scan that follow `self.tokens.append(Token('EOF', ...))` on a symbolic token list.
+    The list is a sequence of pieces: ('T', lo, hi) = a slice of the scanned list T (indices are linear in t = position of
+    the `~`, N = len(T)), ('tok', <constructor text>) = a synthesised token.  k = number of `~`, xname = the local that
+    holds their positions.  Returns ('list', pieces) | ('raise',)."""
+    from .. import symexec as SX
+
+    body = strip_docstring(scan.node.body)
+    start = None
+    for i, st in enumerate(body):
+        if isinstance(st, ast.Expr) and isinstance(st.value, ast.Call) and unparse(st.value.func) == "self.tokens.append" \
+                and st.value.args and isinstance(st.value.args[0], ast.Call) and dotted(st.value.args[0].func) == "Token" \
+                and is_str_const(st.value.args[0].args[0], "EOF"):
+            start = i
+    if start is None:
+        raise AnalysisError("Scanner.scan: `self.tokens.append(Token('EOF', ...))` not found at the top level")
+    flag_name = scan.params[1] if len(scan.params) > 1 else "add_intercept"
+    N, t = SX.atom("N"), SX.atom("t")
+    state = {"tokens": [("T", SX.Lin(0), N)]}
+    env = {}
+
+    def lin(v):
+        return v if isinstance(v, SX.Lin) else None
+
+    def show(pieces):
+        return ("list", [(p_[0], p_[1]) if p_[0] == "tok" else ("T", SX.render(p_[1]), SX.render(p_[2])) for p_ in pieces])
+
+    def num(e):
+        """integer / index expressions"""
+        if isinstance(e, ast.Constant) and isinstance(e.value, int) and not isinstance(e.value, bool):
+            return SX.Lin(e.value)
+        if isinstance(e, ast.Name) and e.id in env and isinstance(env[e.id], SX.Lin):
+            return env[e.id]
+        if isinstance(e, ast.Subscript) and isinstance(e.value, ast.Name) and e.value.id == xname and isinstance(e.slice, ast.Constant) and e.slice.value in (0, -1):
+            if k != 1:
+                raise AnalysisError(f"`{unparse(e)}` is evaluated with {k} tilde position(s)")
+            return t
+        if isinstance(e, ast.Call) and dotted(e.func) == "len" and len(e.args) == 1 and isinstance(e.args[0], ast.Name) and e.args[0].id == xname:
+            return SX.Lin(k)
+        if isinstance(e, ast.BinOp) and isinstance(e.op, (ast.Add, ast.Sub)):
+            a, b = num(e.left), num(e.right)
+            if a is not None and b is not None:
+                return SX.add(a, b, 1 if isinstance(e.op, ast.Add) else -1)
+        return None
+
+    def truth(e):
+        if isinstance(e, ast.Name) and e.id == flag_name:
+            return add_intercept
+        if isinstance(e, ast.Name) and e.id == xname:
+            return k > 0
+        if isinstance(e, ast.UnaryOp) and isinstance(e.op, ast.Not):
+            return not truth(e.operand)
+        if isinstance(e, ast.BoolOp):
+            vals = [truth(v) for v in e.values]
+            return all(vals) if isinstance(e.op, ast.And) else any(vals)
+        if isinstance(e, ast.Compare) and len(e.ops) == 1:
+            a, b = num(e.left), num(e.comparators[0])
+            if a is not None and b is not None and not a.t and not b.t:
+                op = type(e.ops[0])
+                table = {ast.Eq: a.c == b.c, ast.NotEq: a.c != b.c, ast.Gt: a.c > b.c, ast.GtE: a.c >= b.c, ast.Lt: a.c < b.c, ast.LtE: a.c <= b.c}
+                if op in table:
+                    return table[op]
+        raise AnalysisError(f"Scanner.scan: cannot decide `{unparse(e)}` for {k} tilde(s)")
+
+    def lst(e):
+        """token-list expressions -> pieces"""
+        if isinstance(e, ast.Attribute) and unparse(e) == "self.tokens":
+            return list(state["tokens"])
+        if isinstance(e, ast.Name) and e.id in env and isinstance(env[e.id], list):
+            return list(env[e.id])
+        if isinstance(e, ast.List):
+            out = []
+            for x in e.elts:
+                if isinstance(x, ast.Call) and dotted(x.func) == "Token":
+                    out.append(("tok", unparse(x)))
+                elif isinstance(x, ast.Name) and x.id in env and isinstance(env[x.id], tuple) and env[x.id][0] == "tok":
+                    out.append(env[x.id])
+                elif isinstance(x, ast.Starred):
+                    out.extend(lst(x.value))
+                else:
+                    raise AnalysisError(f"Scanner.scan: unmodelled list element `{unparse(x)}`")
+            return out
+        if isinstance(e, ast.BinOp) and isinstance(e.op, ast.Add):
+            return lst(e.left) + lst(e.right)
+        if isinstance(e, ast.Subscript) and isinstance(e.slice, ast.Slice) and e.slice.step is None:
+            base = lst(e.value)
+            lo = num(e.slice.lower) if e.slice.lower is not None else SX.Lin(0)
+            hi = num(e.slice.upper) if e.slice.upper is not None else None
+            if lo is None or (e.slice.upper is not None and hi is None):
+                raise AnalysisError(f"Scanner.scan: unmodelled slice `{unparse(e)}`")
+            left, right = split(base, lo)
+            if hi is None:
+                return right
+            mid, _rest = split(right, SX.add(hi, lo, -1))
+            return mid
+        if isinstance(e, ast.Call) and dotted(e.func) == "list" and len(e.args) == 1:
+            return lst(e.args[0])
+        raise AnalysisError(f"Scanner.scan: unmodelled token-list expression `{unparse(e)}`")
+
+    def split(pieces, idx):
+        """(pieces before index idx, pieces from idx on); idx linear in t with 0 <= t < N"""
+        before, off = [], SX.Lin(0)
+        rest = list(pieces)
+        while True:
+            if idx == off:
+                return before, rest
+            if not rest:
+                raise AnalysisError(f"Scanner.scan: index {SX.render(idx)} is beyond the modelled list")
+            p_ = rest[0]
+            if p_[0] == "tok":
+                before.append(p_)
+                rest = rest[1:]
+                off = SX.add(off, SX.Lin(1))
+                continue
+            length = SX.add(p_[2], p_[1], -1)
+            end = SX.add(off, length)
+            d = SX.add(idx, off, -1)
+            # inside this T-slice?  provable for d = t + c (c in 0..1) inside T[0:N], since 0 <= t < N
+            # (larger offsets are placed the same way: list.insert clamps at the end, and any such placement differs from
+            # the expected one anyway)
+            inside = p_[1] == SX.Lin(0) and p_[2] == N and set(d.t) == {"t"} and d.t["t"] == 1 and 0 <= d.c <= 4
+            if inside:
+                cut = SX.add(p_[1], d)
+                before.append(("T", p_[1], cut))
+                rest = [("T", cut, p_[2])] + rest[1:]
+                return before, rest
+            if end == idx:
+                before.append(p_)
+                rest = rest[1:]
+                off = end
+                continue
+            # constant index beyond a piece of unknown length, or an index the model cannot place
+            if not d.t and d.c > 0 and p_[0] == "T":
+                raise AnalysisError(f"Scanner.scan: cannot place index {SX.render(idx)} inside {('T', SX.render(p_[1]), SX.render(p_[2]))}")
+            before.append(p_)
+            rest = rest[1:]
+            off = end
+
+    class Done(Exception):
+        def __init__(self, v):
+            self.v = v
+
+    def run(stmts):
+        for st in stmts:
+            if isinstance(st, ast.Expr) and isinstance(st.value, ast.Constant):
+                continue
+            if isinstance(st, ast.Pass):
+                continue
+            if isinstance(st, ast.Raise):
+                raise Done(("raise",))
+            if isinstance(st, ast.Return):
+                if st.value is not None and unparse(st.value) == "self.tokens":
+                    raise Done(show(state["tokens"]))
+                raise Done(show(lst(st.value)) if st.value is not None else ("none",))
+            if isinstance(st, ast.If):
+                run(st.body if truth(st.test) else st.orelse)
+                continue
+            if isinstance(st, ast.Assign) and len(st.targets) == 1:
+                tg = st.targets[0]
+                if isinstance(tg, ast.Name):
+                    if tg.id == xname:
+                        continue
+                    v = num(st.value)
+                    if v is not None:
+                        env[tg.id] = v
+                    elif isinstance(st.value, ast.Call) and dotted(st.value.func) == "Token":
+                        env[tg.id] = ("tok", unparse(st.value))
+                    else:
+                        env[tg.id] = lst(st.value)
+                    continue
+                if unparse(tg) == "self.tokens":
+                    state["tokens"] = lst(st.value)
+                    continue
+                if isinstance(tg, ast.Subscript) and unparse(tg.value) == "self.tokens" and isinstance(tg.slice, ast.Slice) and tg.slice.step is None:
+                    lo = num(tg.slice.lower) if tg.slice.lower is not None else SX.Lin(0)
+                    hi = num(tg.slice.upper) if tg.slice.upper is not None else None
+                    if lo is None or hi is None or lo != hi:
+                        raise AnalysisError(f"Scanner.scan: unmodelled slice assignment `{unparse(st)}`")
+                    a, b = split(state["tokens"], lo)
+                    state["tokens"] = a + lst(st.value) + b
+                    continue
+            if isinstance(st, ast.Expr) and isinstance(st.value, ast.Call) and unparse(st.value.func) == "self.tokens.insert" and len(st.value.args) == 2:
+                idx = num(st.value.args[0])
+                x = st.value.args[1]
+                if idx is None:
+                    raise AnalysisError(f"Scanner.scan: unmodelled insertion index `{unparse(st.value.args[0])}`")
+                if isinstance(x, ast.Call) and dotted(x.func) == "Token":
+                    item = ("tok", unparse(x))
+                elif isinstance(x, ast.Name) and isinstance(env.get(x.id), tuple):
+                    item = env[x.id]
+                else:
+                    raise AnalysisError(f"Scanner.scan: unmodelled inserted value `{unparse(x)}`")
+                a, b = split(state["tokens"], idx)
+                state["tokens"] = a + [item] + b
+                continue
+            if isinstance(st, ast.Expr) and isinstance(st.value, ast.Call) and dotted(st.value.func) in ("_log.debug", "_log.info"):
+                continue
+            raise AnalysisError(f"Scanner.scan: unmodelled statement after the scanning loop `{short(st)}`")
+
+    try:
+        run(body[start + 1:])
+    except Done as d:
+        return d.v
+    return ("falloff",)
 
 
 def _passthrough_visit(fn, param):
